@@ -97,6 +97,13 @@ def recipes(bct):
         add('consensus_und', 'blocks', lambda seed, X=blocks: bct.consensus_und(X.copy(), .3, reps=6, seed=seed))
         pts = rs.rand(n, 3)
         add('rentian_scaling', 'und_bin', lambda seed, X=ub, p=pts: bct.rentian_scaling(X.copy(), p.copy(), 15, seed=seed))
+        # nodes on a line: most random cubes are empty and rejected, hundreds of partitions requested -- thousands of
+        # draws from one stream inside one call
+        r30 = np.random.RandomState(30)
+        ub30 = np.triu((r30.rand(30, 30) < .2).astype(float), 1)
+        ub30 = ub30 + ub30.T
+        line = np.c_[np.arange(30, dtype=float), np.zeros(30), np.zeros(30)]
+        add('rentian_scaling', 'collinear_30x600', lambda seed, X=ub30, p=line: bct.rentian_scaling(X.copy(), p.copy(), 600, seed=seed))
         Dd = np.sqrt(((pts[:, None] - pts[None]) ** 2).sum(-1))
         sa = np.zeros((n, n))
         sa[0, 1] = sa[1, 0] = 1
@@ -209,6 +216,8 @@ def cases(tier, seed):
             out.append({'f': n, 'kind': 'repro', 'recipe': li, 'base': seed})
     out.append({'f': 'get_rng', 'kind': 'get_rng'})
     out.append({'f': 'nbs_parallel', 'kind': 'nbs_parallel', 'base': seed})
+    if tier != 'thorough':
+        out.append({'f': '*', 'kind': 'crossproc', 'base': seed, 'first_only': True})
     if tier == 'thorough':
         out.append({'f': '*', 'kind': 'crossproc', 'base': seed})
         out.append({'f': 'nbs_parallel', 'kind': 'nbs_parallel', 'base': seed + 1})
@@ -327,16 +336,21 @@ out = {}
 R = C05.recipes(bct)
 for name in sorted(R):
     for li, (label, fn) in enumerate(R[name]):
-        try:
-            with contextlib.redirect_stdout(io.StringIO()):
-                r = fn(11)
-            def flat(x):
-                if isinstance(x, (tuple, list)):
-                    return [flat(y) for y in x]
-                return monitor.digest(np.asarray(x))
-            out['%%s/%%s' %% (name, label) + str(li)] = json.dumps(flat(r))
-        except Exception as e:
-            out['%%s/%%s' %% (name, label) + str(li)] = 'EXC ' + type(e).__name__
+        if %(first_only)r and (li > 0 or 'n230' in label or 'n70000' in label):
+            continue
+        # an integer seed, and the other hashable kinds get_rng documents (their hash is salted per process)
+        for sd in ((11, 'seven', (3, 4)) if li == 0 else (11,)):
+            key = '%%s/%%s' %% (name, label) + str(li) + ':' + type(sd).__name__
+            try:
+                with contextlib.redirect_stdout(io.StringIO()):
+                    r = fn(sd)
+                def flat(x):
+                    if isinstance(x, (tuple, list)):
+                        return [flat(y) for y in x]
+                    return monitor.digest(np.asarray(x))
+                out[key] = json.dumps(flat(r))
+            except Exception as e:
+                out[key] = 'EXC ' + type(e).__name__
 print('RESULT ' + json.dumps(out))
 '''
 
@@ -344,10 +358,10 @@ print('RESULT ' + json.dumps(out))
 def crossproc(case, REC):
     here = os.path.dirname(os.path.dirname(os.path.dirname(os.path.abspath(__file__))))
     res = []
-    for hs in ('1', '2', '12345'):
+    for hs in (('1', '12345') if case.get('first_only') else ('1', '2', '12345')):
         env = dict(os.environ)
         env['PYTHONHASHSEED'] = hs
-        p = subprocess.run([sys.executable, '-c', CHILD % {'here': here}], capture_output=True, text=True, timeout=500, env=env)
+        p = subprocess.run([sys.executable, '-c', CHILD % {'here': here, 'first_only': bool(case.get('first_only'))}], capture_output=True, text=True, timeout=500, env=env)
         line = [l for l in p.stdout.split('\n') if l.startswith('RESULT ')]
         if not line:
             REC.check(PROP, '*', 'same_across_processes', False, {'stderr': p.stderr[-500:]})
@@ -355,8 +369,8 @@ def crossproc(case, REC):
         res.append(json.loads(line[0][7:]))
     for k in sorted(res[0]):
         REC.tag(PROP, 'exec')
-        REC.check(PROP, k.split('/')[0], 'same_across_processes', res[0][k] == res[1].get(k) == res[2].get(k),
-                  {'recipe': k, 'digests': [r.get(k) for r in res]})
+        REC.check(PROP, k.split('/')[0], 'same_across_processes', all(r.get(k) == res[0][k] for r in res[1:]),
+                  {'recipe': k, 'digests': [r.get(k) for r in res]}, ('seed:' + k.rsplit(':', 1)[-1],))
 
 
 PAR = r'''
